@@ -139,8 +139,31 @@ def k2(rep, w):
     ok = bool(inh) and bool(meths) and not any(i in cd.reachable_blocks(m) for i in inh for m in meths)
     r.check(ok, 'class_declaration emits Inherit before the methods', 'Inherit can be emitted after a method definition: inherited methods then overwrite the class\'s own', cd.loc())
     # `super` is captured at class definition: a hidden local named "super" is declared under has_superclass
-    names = [k.get('s') for b in cd.blocks for s in b['s'] for k in [op_const((s.get('r', {}) or {}).get('o', {}) or {})] if k and 's' in k]
-    r.check(any('super' in (x or '') for x in names), 'class_declaration binds the hidden `super` local at definition time', 'the superclass is no longer captured in a hidden local', cd.loc())
+    # (by role, not by spelling: the name of the synthetic token class_declaration declares is the name super_ looks up)
+    su = w.require_fn(P + 'super_', 'C07')
+    declared, looked_up = synthetic_names(w, cd), synthetic_names(w, su)
+    adds = any(callee_name(t) == 'yarel::compiler::Compiler::add_local' for _, t in cd.calls())
+    r.check(adds and bool(declared & looked_up), 'class_declaration binds the hidden `super` local at definition time', 'the superclass is no longer captured in a hidden local '
+            '(synthetic names declared by class_declaration: %s; looked up by super_: %s)' % (sorted(declared), sorted(looked_up)), cd.loc())
+
+
+def token_names(w, fn_, bi, forg):
+    """the string constants (literal or named) a Token:: constructor call in fn_ is given"""
+    t = fn_.blocks[bi]['t']
+    out = set(fn_.operand_strings(forg, t['args'][0])) if t['args'] else set()
+    k_ = op_const(t['args'][0]) if t['args'] else None
+    if k_ is not None and 's' in k_:
+        out.add(k_['s'])
+    return out
+
+
+def synthetic_names(w, fn_):
+    out = set()
+    forg = origins(fn_)
+    for bi, t in fn_.calls():
+        if (callee_name(t) or '').startswith('yarel::scanner::Token::') and t['args']:
+            out |= token_names(w, fn_, bi, forg)
+    return out
 
 
 def k3(rep, w):
@@ -149,7 +172,9 @@ def k3(rep, w):
     rather than from the receiver's dynamic class"""
     r = rep.rule('K3', 'super.m(..) and super.m both resolve through the hidden `super` variable of the defining class', floor=4)
     sp = w.require_fn(P + 'super_', 'C07')
-    # blocks that load the hidden variable: named_variable(Token::from_string("super"), ..)
+    # blocks that load the hidden variable: named_variable(<synthetic token named like the local class_declaration declares>, ..)
+    cd_ = w.require_fn(P + 'class_declaration', 'C07')
+    hidden = synthetic_names(w, cd_)
     loads = set()
     org = origins(sp)
     for bi, t in sp.calls():
@@ -157,15 +182,8 @@ def k3(rep, w):
             continue
         pl = op_place(t['args'][1])
         for q in org.get(pl['l'], ()) if pl else ():
-            if q[0][0] == 'call' and q[0][2].endswith('Token::from_string'):
-                ft = sp.blocks[q[0][1]]['t']
-                k = op_const(ft['args'][0])
-                if k is None:
-                    ap_ = op_place(ft['args'][0])
-                    for q2 in org.get(ap_['l'], ()) if ap_ else ():
-                        if q2[0][0] == 'const' and q2[0][1] == '"super"':
-                            k = {'s': '"super"'}
-                if k is not None and k.get('s') == '"super"':
+            if q[0][0] == 'call' and q[0][2].startswith('yarel::scanner::Token::'):
+                if token_names(w, sp, q[0][1], org) & hidden:
                     loads.add(bi)
     for opn in ('SuperInvoke', 'GetSuper'):
         ems = [bi for (bi, k, o, d) in emit.emissions(w, sp) if o == opn]
@@ -200,12 +218,73 @@ def k3(rep, w):
                 'an inherited method that uses super then starts its search at the wrong class' % nm, f.loc())
 
 
+def _kind_map(w, g, variants, any_local=False):
+    """{variant: constant} for a FunctionKind method that is one match on the kind with constant arms (bools or named / literal strings)"""
+    FK = 'yarel::compiler::FunctionKind'
+    byd = {v.get('discr', i): v['n'] for i, v in enumerate(w.yarel.adts[FK]['variants'])}
+    for bi in g.normal_blocks():
+        t = g.blocks[bi]['t']
+        if t['t'] != 'switch' or not any(s_.get('r', {}).get('rv') == 'discr' for s_ in g.blocks[bi]['s']):
+            continue
+
+        def const_result(b):
+            # the first constant an arm stores into a plain local (the return place, or - when the property was spliced into its
+            # caller - the local standing for it): (local, constant)
+            for _ in range(4):
+                for s_ in g.blocks[b]['s']:
+                    d_ = s_.get('d') or {}
+                    if not d_.get('p') and s_['r'].get('rv') == 'use':
+                        k = op_const(s_['r']['o'])
+                        if k is not None and ('v' in k or 's' in k) and (any_local or d_.get('l') == 0):
+                            return (d_['l'], k.get('s', k.get('v')))
+                tt = g.blocks[b]['t']
+                if tt['t'] == 'goto':
+                    b = tt['to']
+                else:
+                    return None
+            return None
+        out = {}
+        for v, cb in t['cases']:
+            if byd.get(v) is not None:
+                out[byd[v]] = const_result(cb)
+        other = const_result(t['else'])
+        for v in variants:
+            out.setdefault(v, other)
+        if all(x is not None for x in out.values()) and len({x[0] for x in out.values()}) == 1:
+            return {v: x[1] for v, x in out.items()}
+    return None
+
+
 def _kind_pred(w, g, variants, depth=0):
     """evaluate a small predicate over FunctionKind: {variant: bool} or None if the shape is not understood. Understands
     `kind ==/!= FunctionKind::X` (PartialEq call against a promoted constant), a match / matches! on the kind, and a call to a FunctionKind
     method that is itself such a match."""
     FK = 'yarel::compiler::FunctionKind'
     byd = {v.get('discr', i): v['n'] for i, v in enumerate(w.yarel.adts[FK]['variants'])}
+    # `kind.some_property() ==/!= CONSTANT`: the property is a match on the kind with constant arms
+    cmps = [(bi, t) for bi, t in g.calls() if (callee_name(t) or '').endswith(('::ne', '::eq')) and 'PartialEq' in (callee_name(t) or '')]
+    props = [(bi, t) for bi, t in g.calls() if (callee_name(t) or '').startswith(FK + '::')]
+    if len(cmps) == 1 and len(props) <= 1 and depth < 2:
+        if props:
+            h = w.fns.get(callee_name(props[0][1]))
+            m = _kind_map(w, h, variants) if h is not None else None
+        else:
+            m = _kind_map(w, g, variants, any_local=True)      # the property was spliced into this body
+        gorg = origins(g)
+        sides = []
+        for a in cmps[0][1]['args']:
+            cs = set(g.operand_strings(gorg, a))
+            k_ = op_const(a)
+            if k_ is not None and 's' in k_:
+                cs.add(k_['s'])
+            sides.append(cs)
+        # one side is the property (it may denote any of the arms' constants), the other the constant it is compared with
+        single = [cs for cs in sides if len(cs) == 1]
+        consts = single[0] if len(single) == 1 else set()
+        if m is not None and len(consts) == 1 and not any(isinstance(x, bool) for x in m.values()):
+            c0 = set(consts).pop()
+            eq = (callee_name(cmps[0][1]) or '').endswith('::eq')
+            return {v: ((m[v] == c0) == eq) for v in variants}
     for bi, t in g.calls():
         n = callee_name(t) or ''
         if n.endswith('PartialEq::ne') or n.endswith('PartialEq::eq') or n.endswith('PartialEq>::ne') or n.endswith('PartialEq>::eq'):
@@ -268,7 +347,7 @@ def k4(rep, w):
     preds = []
     for g in clos:
         reads_kind = any(isinstance(e, dict) and e.get('n') == 'kind' for b in g.blocks for s_ in b['s'] for e in (((s_.get('r') or {}).get('p') or {}).get('p') or []))
-        if reads_kind:
+        if reads_kind and g.crate.tstr(g.local_ty(0)) == 'bool':      # the predicate of the search, not a projection applied to its result
             preds.append(g)
     if not r.check(len(preds) == 1, 'super_ selects the enclosing method by its kind', 'super_ does not look for the enclosing method (%d kind predicates): inside a lambda or nested function '
                    '`super.m()` is compiled with slot zero of that function - the closure itself - as the receiver' % len(preds), sp.loc()):
